@@ -443,6 +443,35 @@ def floor(x):
     return elementwise((x,), op, "float")
 
 
+def ceil(x):
+    def op(e):
+        if z3.is_int(e):
+            return _to_real(e)
+        return -z3.ToReal(z3.ToInt(-e))
+
+    return elementwise((x,), op, "float")
+
+
+def minimum(a, b):
+    def op(x, y):
+        x, y = _num_pair(x, y)
+        return z3.If(x <= y, x, y)
+
+    return elementwise((a, b), op)
+
+
+def maximum(a, b):
+    def op(x, y):
+        x, y = _num_pair(x, y)
+        return z3.If(x >= y, x, y)
+
+    return elementwise((a, b), op)
+
+
+def absolute(a):
+    return elementwise((a,), lambda x: z3.If(_to_int(x) >= 0, _to_int(x), -_to_int(x)) if not z3.is_real(x) else z3.If(x >= 0, x, -x))
+
+
 def clip(x, lo=None, hi=None):
     def op(e, *b):
         it = iter(b)
